@@ -39,9 +39,13 @@ def same(a: Any, b: Any) -> bool:
     if a is b:
         return True
     try:
-        return type(a) is type(b) and (a == b or (a != a and b != b))
+        if type(a) is type(b) and (a == b or (a != a and b != b)):
+            return True
     except Exception:  # noqa - sNaN comparisons raise
         return repr(a) == repr(b)
+    # opaque objects of the harness's own classes compare by identity; two separately built calls hold two
+    # separately built objects for the same term
+    return type(a) is type(b) and (type(a).__module__ or "").startswith("harness") and repr(a) == repr(b)
 
 
 def oracle(c: SC.SigCase) -> Optional[dict]:
